@@ -233,6 +233,13 @@ def run(ctx):
     run_raw(ctx, xc, raws)
 
     ctx.cov["exhaustive"] = False
+    if not ctx.replay:
+        # the wire tracer: BodyTrace.tla's flags family and random bodies on the real tracer (same encodings; a malformed
+        # compressed end-of-stream message followed by a valid one)
+        import sys
+        sys.path.insert(0, os.path.dirname(os.path.abspath(__file__)))
+        import c14
+        c14.replay_reduced(ctx)
     ctx.cov["rule"] = (
         "TLC enumerates every call history of one pooled instance that starts with Reset - free grammar up to %s calls "
         "(decompressor: Reset on 9 stream classes / Read1 / ReadAll / Close) and %s calls (compressor: Reset on 4 sink kinds / Write of 3 "
